@@ -1230,7 +1230,8 @@ def solve_ivp(fun, t_span, y0, method='RK45', t_eval=None, dense_output=False,
     callbacks = list(options.get("callbacks", []))
     if "max_step" in options or "min_step" in options:
         def __step_cb(ode_sys):
-            ode_sys.dt = D.ar_numpy.clip(ode_sys.dt, min=min_step, max=max_step)
+            # clip the magnitude: the step is negative when integrating backward in time
+            ode_sys.dt = D.ar_numpy.sign(ode_sys.dt) * D.ar_numpy.clip(D.ar_numpy.abs(ode_sys.dt), min=min_step, max=max_step)
         callbacks.append(__step_cb)
     
     integration_options = dict(callback=callbacks, events=events, eta=options.get("show_prog_bar", False))
@@ -1240,8 +1241,11 @@ def solve_ivp(fun, t_span, y0, method='RK45', t_eval=None, dense_output=False,
         y_res = D.ar_numpy.transpose(ode_system.y, axes=[*range(1, len(ode_system.y.shape)), 0])
     else:
         t_eval = D.ar_numpy.sort(t_eval)
-        if t_eval[0] < t_span[0] or t_eval[-1] > t_span[1]:
+        if t_eval[0] < min(t_span[0], t_span[1]) or t_eval[-1] > max(t_span[0], t_span[1]):
             raise ValueError(f"Expected `t_eval` to be in the range [{t_span[0]}, {t_span[1]}]")
+        if t_span[1] < t_span[0]:
+            # visit the requested times in the direction of integration
+            t_eval = t_eval[::-1]
         t_res = []
         y_res = []
         for t in t_eval:
